@@ -259,7 +259,7 @@ class Endpoint:
     def quiescent(self):
         t = self.t
         return (not t._sent_queue and not t._outbound_queue and not t._data_channel_queue
-                and not self.tasks)
+                and not self.tasks and not t._reconfig_queue and t._reconfig_request is None)
 
 
 def parse_chunks(m, data: bytes):
